@@ -42,10 +42,19 @@ Definition CONNECT : bytes := [67; 79; 78; 78; 69; 67; 84].
 Definition recognize_http (method path : bytes) : res proxy :=
   let path := match find_byte ch_qmark path with Some i => firstn i path | None => path end in
   let path := match rev path with c :: r => if c =? ch_slash then rev r else path | [] => path end in
-  let path := match find_sub [ch_colon; ch_slash; ch_slash] path with
-              | Some i0 => let rest := skipn (i0 + 3) path in
-                           match find_byte ch_slash rest with Some j => firstn j rest | None => rest end
-              | None => path end in
+  let has_slash (s : bytes) := existsb (N.eqb ch_slash) s in
+  let cut :=
+    match find_sub [ch_colon; ch_slash; ch_slash] path with
+    | Some i0 =>
+      if has_slash (firstn i0 path) then None     (* "://" inside an origin-form path *)
+      else let rest := skipn (i0 + 3) path in
+           Some (match find_byte ch_slash rest with Some j => firstn j rest | None => rest end)
+    | None => None
+    end in
+  let* path := match cut with
+               | Some a => Ok a
+               | None => if bytes_eqb method CONNECT && negb (has_slash path) then Ok path else Err EOther
+               end in
   if bytes_eqb method CONNECT then
     match rfind_byte ch_colon path with
     | None => Err EOther
